@@ -574,4 +574,6 @@ PROPS['C12']['proved_part'] += ('; CHARACTER level for cxt: lemma.cxt.roundtrip 
 PROPS['C12']['bounded_part'] = ('that CPython\'s str.strip/split/join/int/format/isspace, print and io.StringIO compute the List Char definitions of lemmas/Text.lean (validated: 1.3M instances incl. every '
                                 'code point, and the Lean definitions evaluated against CPython); the characters of the other text formats (table, csv quoting, wiki-table, repr/literal_eval), '
                                 'real files and codecs -- round trips and independent reference readers/writers over the stated scopes')
+for _p in ('C13', 'C14'):
+    PROPS[_p]['units'] += [u for u in ('definitions.__eq__.plain',) if u not in PROPS[_p]['units']]
 NOT_APPLICABLE = {}
